@@ -38,6 +38,11 @@ CHECKS = {
    note=TB + "Finiteness and real dtype of components_ come from external numeric kernels (eigh, L-BFGS, …): checked on every fit of the run, not proved.",
    technique="Lean 4 proof about source-generated decision function + shape/state-machine theorems; differential correspondence",
    ref="§6 C03"),
+ 'C20': dict(
+   text="Theorems over ℝ, all sizes: eigen-branch conversion gives LᵀL = V·diag(max(0,w))·Vᵀ for any (V,w), hence = M when M = V diag(w) Vᵀ with w ≥ 0; diagonal shortcut and Cholesky branch give LᵀL = M; spectrum check: eigenvalue < −tol ⇒ NonPSDError, otherwise accepted and 'definite' ⇔ all |w| ≥ tol, negative tol ⇒ ValueError; non-symmetric ⇒ ValueError; V·diag(w⁺)·Vᵀ satisfies the four Penrose equations (with Penrose uniqueness ⇒ it is the pseudo-inverse / the inverse); initialiser dispatch (identity / covariance / random / array, strict_pd rejection); the GENERATED _auto_select_init equals the documented rule for all arguments. Tie: matrices generated with their certificate (Q, w) run through components_from_metric, the spectrum check, the pseudo-inverse, the initialisers via public fits (feasible ITML prior returns the prior) and via LMNN with an empty loop; Float twin compared on the same inputs.",
+   note=TB + "Cholesky/eigh/pinvh are external; near-boundary cases are kept a factor 8 away from the tolerance and explicit tolerances below rounding level accept either verdict for singular matrices.",
+   technique="Lean 4 proof (matrix algebra, Penrose equations, decision logic, generated function) + certificate-carrying differential tests",
+   ref="§6 C20"),
 }
 
 NOT_YET = {}
